@@ -164,24 +164,13 @@ fn enum_type<'a>(input: &mut &'a [u8]) -> ModalResult<Type<'a>, InputError<&'a [
 }
 
 /// Parse an inline type (struct or enum).
-/// Determines if it's a struct by looking for ':' character.
+///
+/// The struct form is tried first and the enum form only if that fails: what distinguishes them
+/// is whether the first name is followed by a `:`, which cannot be told from the raw bytes
+/// because comments between the parentheses may contain any character. `()` is the empty
+/// struct: an enum has at least one variant.
 fn inline_type<'a>(input: &mut &'a [u8]) -> ModalResult<Type<'a>, InputError<&'a [u8]>> {
-    // An inline struct or enum starts with an opening parenthesis.
-    if !input.starts_with(b"(") {
-        return Err(ErrMode::Backtrack(ParserError::from_input(input)));
-    }
-    // Look ahead to see if this contains a colon (indicating struct)
-    if let Some(pos) = input.iter().position(|&b| b == b')') {
-        let content = &input[1..pos]; // Skip opening paren
-        if content.contains(&b':') || content.iter().all(|b| b.is_ascii_whitespace()) {
-            // `()` is the empty struct: an enum has at least one variant.
-            struct_type(input)
-        } else {
-            enum_type(input)
-        }
-    } else {
-        Err(ErrMode::Backtrack(ParserError::from_input(input)))
-    }
+    alt((struct_type, enum_type)).parse_next(input)
 }
 
 fn element_type<'a>(input: &mut &'a [u8]) -> ModalResult<Type<'a>, InputError<&'a [u8]>> {
